@@ -31,7 +31,7 @@ def mk_solver(kind, rec, kvals, dtval):
     return s
 
 
-def probe(kind, d=1):
+def probe(kind, d=1, int_state=False):
     """concrete affine probing of the real iterator around k_i = 1: returns (c, a, b) as Fractions, or None when the
     iterator does not evaluate the model the nominal number of times"""
     it, ns, _ = ITER[kind]
@@ -41,7 +41,7 @@ def probe(kind, d=1):
         rec = {"t": [], "X": []}
         kvals = lambda i: np.array([kv[i] if i < ns else 0.0] * d, dtype=float)
         s = mk_solver(kind, rec, kvals, dt)
-        xn, dtu = it(s._getdXdt, t, np.array([x0] * d, dtype=float), s._updateX)
+        xn, dtu = it(s._getdXdt, t, np.array([x0] * d, dtype=(int if int_state else float)), s._updateX)
         return rec, xn
     rec0, xb = run([1.0] * ns, t=0.0, dt=1.0)
     if len(rec0["t"]) != ns:
@@ -127,6 +127,20 @@ def tableau(ctx, kind="rk4", d=2):
         ctx.prove("X_old_not_modified", ctx.eq(X[j], xold_items[j]))
 
 
+def dtype_independent(ctx, kind="rk4"):
+    """the tableau realised by the iterator does not depend on the dtype of the state array (an integer initial state, as in
+    kawin's own test model, must not truncate the stage states)"""
+    scale = ctx.real("unused", (0.5, 1.5))       # the probes are concrete: dtypes are structure, not solver variables
+    pf = probe(kind, int_state=False, d=2)
+    pi = probe(kind, int_state=True, d=2)
+    ctx.prove("iterator evaluates the model once per nominal stage for an integer state", pi is not None and pf is not None)
+    if pi is None or pf is None:
+        return
+    ctx.prove("stage times do not depend on the state dtype", pi[0] == pf[0])
+    ctx.prove("stage coefficients a_ij do not depend on the state dtype", pi[1] == pf[1])
+    ctx.prove("weights b_i do not depend on the state dtype", pi[2] == pf[2])
+
+
 def through_model(ctx, kind="rk4", d=2):
     """through GenericModel-style nested state (list of arrays) and the real flatten/unflatten: the model's getdXdt is
     called at the documented times, with states of the supplied layout, and the model's X is not modified"""
@@ -177,6 +191,8 @@ HARNESSES = [
                          "tableau coefficients are rationals with denominator < 1e5 (extracted by concrete probing; the symbolic linear-form obligations make the extraction sound for all t, dt, X, k)"],
             bounds={"state dimension": "d", "stages": "as executed"},
             params={"quick": [{"kind": "euler", "d": 2}, {"kind": "rk4", "d": 2}], "thorough": [{"kind": "euler", "d": 3}, {"kind": "rk4", "d": 3}]}),
+    Harness("C06.dtype_independent", dtype_independent, functions=_F, assumptions=["concrete affine probing with float and integer state arrays"],
+            bounds={"state dimension": 2}, validate=1, params={"quick": [{"kind": "euler"}, {"kind": "rk4"}], "thorough": [{"kind": "euler"}, {"kind": "rk4"}]}),
     Harness("C06.through_model", through_model, functions=_F,
             bounds={"state": "nested [array(d), array(1)]"},
             params={"quick": [{"kind": "euler", "d": 2}, {"kind": "rk4", "d": 2}], "thorough": [{"kind": "euler", "d": 3}, {"kind": "rk4", "d": 3}]}),
